@@ -1,9 +1,13 @@
-import UsualProofs.C15.Sort
-import UsualProofs.C15.HeapInv
+import UsualProofs.C15.Runs
 /-! Property theorems for C15 — hash table, binary heap, list_sort, List/StatList, SHList
-    match their abstract models.  Models: lean/Usual/C15/*.lean. -/
+    match their abstract models.
+
+    Models: lean/Usual/C15/{HashTab,Heap,ListSort,DList,SHList}.lean (transcriptions of
+    usual/hashtab-impl.h, heap.c, list.c, list.h, statlist.h, shlist.h).  Helper lemmas:
+    lean/UsualProofs/C15/*.lean.  Every theorem below is followed by an `example` that
+    instantiates it on a concrete non-trivial value. -/
 namespace UsualProps.C15
-open Usual.C15 UsualProofs.C15
+open Usual.C15 UsualProofs.C15 UsualProofs.C15.Runs
 
 /-! ## list_sort (usual/list.c): a stable sorted permutation, for every total preorder -/
 section SortSec
@@ -13,20 +17,13 @@ open Usual.C15.ListSort UsualProofs.C15.Sort
 theorem sort_perm {α : Type} (le : α → α → Bool) (l : List α) : (listSort le l).Perm l :=
   listSort_perm le l
 
-example : (listSort (fun (a b : Nat × Nat) => a.1 ≤ b.1) [(3,0),(1,1),(2,2),(1,3),(3,4),(0,5),(1,6)]).Perm
+example : (listSort leFst [(3,0),(1,1),(2,2),(1,3),(3,4),(0,5),(1,6)]).Perm
     [(3,0),(1,1),(2,2),(1,3),(3,4),(0,5),(1,6)] := sort_perm _ _
 
 /-- `list_sort` returns a sorted list whenever `cmp(a,b) <= 0` is a total preorder -/
 theorem sort_sorted {α : Type} (le : α → α → Bool) (h : TotalPreorder le) (l : List α) :
     (listSort le l).Pairwise (fun a b => le a b = true) :=
   listSort_sorted le h l
-
-/-- the comparator used by the harness and in the examples: compare first components -/
-def leFst (a b : Nat × Nat) : Bool := decide (a.1 ≤ b.1)
-
-theorem leFst_preorder : TotalPreorder leFst :=
-  ⟨fun a b => by unfold leFst; simp only [decide_eq_true_eq]; omega,
-   fun a b c => by unfold leFst; simp only [decide_eq_true_eq]; omega⟩
 
 example : (listSort leFst [(3,0),(1,1),(2,2),(1,3),(3,4),(0,5),(1,6)]).Pairwise (fun a b => leFst a b = true) :=
   sort_sorted leFst leFst_preorder _
@@ -43,60 +40,34 @@ example : (listSort leFst [(3,0),(1,1),(2,2),(1,3),(3,4),(0,5),(1,6)]).filter (f
     (fun a b ha hb => by simp only [beq_iff_eq] at ha hb; unfold leFst; simp only [decide_eq_true_eq]; omega)]
   rfl
 
+open Usual.C15.DList UsualProofs.C15.DListP UsualProofs.C15.DSortP in
+/-- LINKS after `list_sort`: the list's ring holds exactly the sorted sequence — walking `next`
+    from the head yields it, walking `prev` yields its reverse — and no node outside the list
+    has been written to -/
+theorem sort_links_consistent (le : Nat → Nat → Bool) (s : DL) (l : Nat) (xs : List Nat) (fuel : Nat)
+    (h : IsL s l xs) (hl0 : l ≠ 0) (h0 : 0 ∉ xs) (hf : xs.length ≤ fuel) :
+    toList (DList.listSort le s l fuel) l fuel = ListSort.listSort le xs ∧
+    toListRev (DList.listSort le s l fuel) l fuel = (ListSort.listSort le xs).reverse ∧
+    ∀ z, z ∉ l :: xs → (DList.listSort le s l fuel).next.get z = s.next.get z ∧
+                         (DList.listSort le s l fuel).prev.get z = s.prev.get z := by
+  obtain ⟨r, f⟩ := sort_isL le s l xs fuel h hl0 h0 hf
+  have := toList_eq r fuel (by rw [(listSort_perm le xs).length_eq]; exact hf)
+  exact ⟨this.1, this.2, f⟩
+
+/-- nodes 5,6,7,8 with keys 3,1,3,1 appended to head 1 -/
+def exKey (x : Nat) : Nat := if x = 6 ∨ x = 8 then 1 else 3
+def exDL : Usual.C15.DList.DL :=
+  let s := Usual.C15.DList.listInit Usual.C15.DList.empty 1
+  [5, 6, 7, 8].foldl (fun s x => Usual.C15.DList.listAppend s 1 x) s
+
+example : Usual.C15.DList.toList (Usual.C15.DList.listSort (leKey exKey) exDL 1 9) 1 9 = [6, 8, 5, 7] ∧
+    Usual.C15.DList.toListRev (Usual.C15.DList.listSort (leKey exKey) exDL 1 9) 1 9 = [7, 5, 8, 6] := by decide +kernel
+
 end SortSec
 
 /-! ## binary heap (usual/heap.c) -/
 section HeapSec
 open Usual.C15.Heap UsualProofs.C15.HeapP
-
-inductive HeapOp where
-  | push (x : Nat)
-  | pop
-  | remove (i : Nat)
-  | reserve (extra : Nat)
-
-def heapStep (better : Nat → Nat → Bool) (h : Heap) : HeapOp → Heap
-  | .push x => push better h x
-  | .pop => (pop better h).1
-  | .remove i => (remove better h i).1
-  | .reserve e => reserve h e
-
-def heapRun (better : Nat → Nat → Bool) : Heap → List HeapOp → Heap
-  | h, [] => h
-  | h, op :: rest => heapRun better (heapStep better h op) rest
-
-/-- histories the API allows: a pushed pointer is non-NULL and not already in the heap -/
-def HeapValid (better : Nat → Nat → Bool) : Heap → List HeapOp → Prop
-  | _, [] => True
-  | h, op :: rest =>
-    (match op with
-     | .push x => x ≠ 0 ∧ ¬ Mem h x
-     | _ => True) ∧ HeapValid better (heapStep better h op) rest
-
-theorem heapStep_inv {better} (sw : StrictWeak better) (h : Heap) (op : HeapOp) (hi : Inv better h)
-    (hv : match op with | .push x => x ≠ 0 ∧ ¬ Mem h x | _ => True) : Inv better (heapStep better h op) := by
-  cases op with
-  | push x => exact (push_spec sw h x hi hv.1 hv.2).1
-  | pop =>
-    show Inv better (remove better h 0).1
-    by_cases hu : 0 < h.used
-    · exact (remove_spec sw h 0 hi hu).2.1
-    · rw [remove_out better h 0 (by omega)]; exact hi
-  | remove i =>
-    show Inv better (remove better h i).1
-    by_cases hu : i < h.used
-    · exact (remove_spec sw h i hi hu).2.1
-    · rw [remove_out better h i (by omega)]; exact hi
-  | reserve e => exact reserve_inv h e hi
-
-theorem init_inv (better : Nat → Nat → Bool) : Inv better Heap.init :=
-  ⟨⟨fun i j hi => by simp [Heap.init] at hi, fun i hi => by simp [Heap.init] at hi,
-    fun i hi => by simp [Heap.init] at hi⟩, fun i _ hi => by simp [Heap.init] at hi⟩
-
-theorem heapRun_inv {better} (sw : StrictWeak better) :
-    ∀ (ops : List HeapOp) (h : Heap), Inv better h → HeapValid better h ops → Inv better (heapRun better h ops)
-  | [], _, hi, _ => hi
-  | op :: rest, h, hi, hv => heapRun_inv sw rest _ (heapStep_inv sw h op hi hv.1) hv.2
 
 /-- HEAP ORDER is an invariant of every push/pop/remove/reserve history: no element is better
     than its parent (`orderedB`, the check the driver also evaluates, is true) -/
@@ -105,29 +76,19 @@ theorem heap_order_invariant {better} (sw : StrictWeak better) (ops : List HeapO
     orderedB better (heapRun better Heap.init ops) = true :=
   (orderedB_iff better _).mpr (heapRun_inv sw ops _ (init_inv better) hv).ord
 
+example : orderedB ltNat (heapRun ltNat Heap.init exOps) = true := heap_order_invariant ltNat_sw exOps exOps_valid
+example : toList (heapRun ltNat Heap.init exOps) = [2, 4, 9, 5] := by decide +kernel
+
 /-- SAVE_POS: after every history each element's last `save_pos` value is its current index -/
 theorem heap_savepos_tracks_index {better} (sw : StrictWeak better) (ops : List HeapOp)
     (hv : HeapValid better Heap.init ops) :
-    let h := heapRun better Heap.init ops
-    ∀ i, i < h.used → h.pos.get (h.data.get i) = i :=
-  (heapRun_inv sw ops _ (init_inv better) hv).pos
+    posOkB (heapRun better Heap.init ops) = true ∧
+    ∀ i, i < (heapRun better Heap.init ops).used →
+      (heapRun better Heap.init ops).pos.get ((heapRun better Heap.init ops).data.get i) = i :=
+  ⟨(posOkB_iff _).mpr (heapRun_inv sw ops _ (init_inv better) hv).pos,
+   (heapRun_inv sw ops _ (init_inv better) hv).pos⟩
 
-/-- the ordering of the harness and the examples: smaller number = better -/
-def ltNat (a b : Nat) : Bool := decide (a < b)
-theorem ltNat_sw : StrictWeak ltNat :=
-  ⟨fun a b => by unfold ltNat; simp only [decide_eq_true_eq, decide_eq_false_iff_not]; omega,
-   fun a b c => by unfold ltNat; simp only [decide_eq_false_iff_not]; omega⟩
-
-def exOps : List HeapOp := [.push 5, .push 3, .push 9, .push 1, .reserve 3, .remove 1, .push 4, .pop, .push 2]
-
-theorem exOps_valid : HeapValid ltNat Heap.init exOps := by
-  simp only [exOps, HeapValid, heapStep]
-  refine ⟨⟨by decide, ?_⟩, ⟨by decide, ?_⟩, ⟨by decide, ?_⟩, ⟨by decide, ?_⟩, trivial, trivial,
-          ⟨by decide, ?_⟩, trivial, ⟨by decide, ?_⟩, trivial⟩ <;>
-    (rw [← mem_toList]; decide)
-
-example : orderedB ltNat (heapRun ltNat Heap.init exOps) = true := heap_order_invariant ltNat_sw exOps exOps_valid
-example : toList (heapRun ltNat Heap.init exOps) = [2, 4, 9, 5] := by decide
+example : posOkB (heapRun ltNat Heap.init exOps) = true := (heap_savepos_tracks_index ltNat_sw exOps exOps_valid).1
 
 /-- POP returns a best element: it was in the heap, nothing in the heap is better, exactly it
     leaves, and the invariant holds again -/
@@ -142,18 +103,24 @@ theorem heap_pop_is_best {better} (sw : StrictWeak better) (h : Heap) (hi : Inv 
   rw [e]
   exact root_best sw h.data h.used hi.ord a ha
 
+example : (pop ltNat (heapRun ltNat Heap.init exOps)).2 = 2 ∧
+    ∀ y, Mem (heapRun ltNat Heap.init exOps) y → ltNat y (pop ltNat (heapRun ltNat Heap.init exOps)).2 = false :=
+  ⟨by decide, (heap_pop_is_best ltNat_sw _ exHeap_inv (by decide)).2.2.1⟩
+
 /-- POP / TOP on the empty heap: NULL, nothing changes -/
 theorem heap_pop_empty (better : Nat → Nat → Bool) (h : Heap) (hu : h.used = 0) :
     pop better h = (h, 0) ∧ top h = 0 := by
   refine ⟨remove_out better h 0 (by omega), ?_⟩
   unfold top; rw [if_neg (by omega)]
 
+example : (pop ltNat Heap.init).2 = 0 := by rw [(heap_pop_empty ltNat Heap.init rfl).1]
+
 /-- `heap_top` is the element `heap_pop` would return -/
 theorem heap_top_eq_pop {better} (sw : StrictWeak better) (h : Heap) (hi : Inv better h) (hu : 0 < h.used) :
     top h = (pop better h).2 := by
   unfold top pop; rw [if_pos hu, (remove_spec sw h 0 hi hu).1]
 
-example : (pop ltNat (heapRun ltNat Heap.init exOps)).2 = 2 := by decide
+example : top (heapRun ltNat Heap.init exOps) = 2 := by decide +kernel
 
 /-- REMOVE(i) removes exactly the element at index `i` (`heap_get_obj(h, i)`): it is returned,
     it leaves, every other element stays, the invariant holds again -/
@@ -167,14 +134,16 @@ theorem heap_remove_exact {better} (sw : StrictWeak better) (h : Heap) (i : Nat)
   rw [g]
   exact ⟨e, hi.nz i hu, m', u', i'⟩
 
+example : (remove ltNat (heapRun ltNat Heap.init exOps) 2).2 = 9 ∧
+    toList (remove ltNat (heapRun ltNat Heap.init exOps) 2).1 = [2, 4, 5] := by decide +kernel
+
 /-- REMOVE(i) with `i` outside the heap: NULL, nothing changes -/
 theorem heap_remove_out (better : Nat → Nat → Bool) (h : Heap) (i : Nat) (hu : h.used ≤ i) :
     remove better h i = (h, 0) ∧ getObj h i = 0 := by
   refine ⟨remove_out better h i hu, ?_⟩
   unfold getObj; rw [if_neg (by omega)]
 
-example : (remove ltNat (heapRun ltNat Heap.init exOps) 2).2 = 9 ∧
-    toList (remove ltNat (heapRun ltNat Heap.init exOps) 2).1 = [2, 4, 5] := by decide
+example : (remove ltNat (heapRun ltNat Heap.init exOps) 4).2 = 0 := by decide +kernel
 
 /-- PUSH adds exactly the new element -/
 theorem heap_push_adds {better} (sw : StrictWeak better) (h : Heap) (x : Nat) (hi : Inv better h)
@@ -184,64 +153,19 @@ theorem heap_push_adds {better} (sw : StrictWeak better) (h : Heap) (x : Nat) (h
   obtain ⟨a, b, c⟩ := push_spec sw h x hi hx0 hfresh
   exact ⟨c, b, a⟩
 
-example : toList (push ltNat (heapRun ltNat Heap.init exOps) 1) = [1, 2, 9, 5, 4] := by decide
+example : toList (push ltNat (heapRun ltNat Heap.init exOps) 1) = [1, 2, 9, 5, 4] := by decide +kernel
 
-/-- REFINEMENT to a multiset: the contents of the heap, as a list up to permutation, follow
-    the specification `push x ↦ x :: S`, `pop/remove ↦ S.erase (returned element)` along every
-    valid history (`specRun` replays the history on a plain list using the values returned) -/
-def specStep (better : Nat → Nat → Bool) (h : Heap) (S : List Nat) : HeapOp → List Nat
-  | .push x => x :: S
-  | .pop => S.erase (pop better h).2
-  | .remove i => S.erase (remove better h i).2
-  | .reserve _ => S
-
-def specRun (better : Nat → Nat → Bool) : Heap → List Nat → List HeapOp → List Nat
-  | _, S, [] => S
-  | h, S, op :: rest => specRun better (heapStep better h op) (specStep better h S op) rest
-
-theorem heapStep_refines {better} (sw : StrictWeak better) (h : Heap) (S : List Nat) (op : HeapOp)
-    (hi : Inv better h) (hp : (toList h).Perm S)
-    (hv : match op with | .push x => x ≠ 0 ∧ ¬ Mem h x | _ => True) :
-    (toList (heapStep better h op)).Perm (specStep better h S op) := by
-  have hi' := heapStep_inv sw h op hi hv
-  have nd : S.Nodup := hp.nodup_iff.mp (toList_nodup h hi.toCore)
-  have ms : ∀ y, y ∈ S ↔ Mem h y := fun y => (hp.mem_iff (a := y)).symm.trans (mem_toList h y)
-  have rm : ∀ i, (toList (remove better h i).1).Perm (S.erase (remove better h i).2) := by
-    intro i
-    by_cases hu : i < h.used
-    · obtain ⟨e, i2, _, m2⟩ := remove_spec sw h i hi hu
-      rw [List.perm_ext_iff_of_nodup (toList_nodup _ i2.toCore) (nd.erase _)]
-      intro y
-      rw [mem_toList, m2 y, nd.mem_erase_iff, ms y, e]
-      exact And.comm
-    · rw [remove_out better h i (by omega)]
-      rw [List.erase_of_not_mem]
-      · exact hp
-      · rw [ms]; rintro ⟨a, ha, e⟩; exact hi.nz a ha e
-  cases op with
-  | push x =>
-    obtain ⟨_, _, m2⟩ := push_spec sw h x hi hv.1 hv.2
-    have ndx : (x :: S).Nodup := List.nodup_cons.mpr ⟨by rw [ms]; exact hv.2, nd⟩
-    show (toList (push better h x)).Perm (x :: S)
-    refine (List.perm_ext_iff_of_nodup (toList_nodup (push better h x) hi'.toCore) ndx).mpr ?_
-    intro y
-    rw [mem_toList, m2 y, List.mem_cons, ms y]
-  | pop => exact rm 0
-  | remove i => exact rm i
-  | reserve e =>
-    show (toList (reserve h e)).Perm S
-    have := reserve_same h e
-    unfold toList; rw [this.1, this.2.1]; exact hp
-
-theorem heap_refines_multiset {better} (sw : StrictWeak better) :
-    ∀ (ops : List HeapOp) (h : Heap) (S : List Nat), Inv better h → (toList h).Perm S →
-      HeapValid better h ops → (toList (heapRun better h ops)).Perm (specRun better h S ops)
-  | [], _, _, _, hp, _ => hp
-  | op :: rest, h, S, hi, hp, hv =>
-    heap_refines_multiset sw rest _ _ (heapStep_inv sw h op hi hv.1) (heapStep_refines sw h S op hi hp hv.1) hv.2
+/-- REFINEMENT to a multiset: along every valid history the contents of the heap, as a list up
+    to permutation, follow the specification `push x ↦ x :: S`, `pop / remove ↦ S.erase (the
+    returned element)` (`specRun` replays the history on a plain list) -/
+theorem heap_refines_multiset {better} (sw : StrictWeak better) (ops : List HeapOp)
+    (hv : HeapValid better Heap.init ops) :
+    (toList (heapRun better Heap.init ops)).Perm (specRun better Heap.init [] ops) :=
+  heapRun_refines sw ops _ _ (init_inv better) (List.Perm.refl _) hv
 
 example : (toList (heapRun ltNat Heap.init exOps)).Perm (specRun ltNat Heap.init [] exOps) :=
-  heap_refines_multiset ltNat_sw exOps _ _ (init_inv ltNat) (List.Perm.refl _) exOps_valid
+  heap_refines_multiset ltNat_sw exOps exOps_valid
+example : specRun ltNat Heap.init [] exOps = [2, 4, 9, 5] := by decide +kernel
 
 /-- `heap_reserve(h, extra)` leaves the contents alone and makes room for `extra` pushes -/
 theorem heap_reserve_spec (h : Heap) (extra : Nat) :
@@ -249,8 +173,338 @@ theorem heap_reserve_spec (h : Heap) (extra : Nat) :
   have := reserve_same h extra
   exact ⟨by unfold toList; rw [this.1, this.2.1], reserve_room h extra⟩
 
-example : (reserve (heapRun ltNat Heap.init exOps) 100).allocated = 104 := by decide
+example : (reserve (heapRun ltNat Heap.init exOps) 100).allocated = 104 := by decide +kernel
 
 end HeapSec
+
+/-! ## hash table (usual/hashtab-impl.h) -/
+section HashTabSec
+open Usual.C15.HashTab UsualProofs.C15.HT UsualProofs.C15.HTdel
+
+/-- NEXT_POS, p ↦ (5p+1) & (2^k − 1), is ONE FULL CYCLE on every table size 2^k (Hull–Dobell):
+    from any slot every slot is reached within 2^k − 1 steps -/
+theorem probe_full_cycle (k p q : Nat) (hp : p < 2 ^ k) (hq : q < 2 ^ k) :
+    ∃ j, j < 2 ^ k ∧ (fun x => (x * 5 + 1) &&& (2 ^ k - 1))^[j] p = q := by
+  have ha := (cycPow k).idx_lt p hp
+  have hb := (cycPow k).idx_lt q hq
+  refine ⟨fwd (2 ^ k) ((cycPow k).idx p) ((cycPow k).idx q), fwd_lt _ _ _ ha hb, ?_⟩
+  have := iterate_σ (cycPow k) _ ha _ (fwd_lt _ _ _ ha hb)
+  rw [(cycPow k).σ_idx p hp, plus_fwd _ _ _ ha hb, (cycPow k).σ_idx q hq] at this
+  exact this
+
+example : ∃ j, j < 2 ^ 6 ∧ (fun x => (x * 5 + 1) &&& (2 ^ 6 - 1))^[j] 17 = 3 := probe_full_cycle 6 17 3 (by decide) (by decide)
+
+/-- REFINEMENT for every history: starting from `hashtab_create(2^k)`, every sequence of
+    insert / delete / copy-resize calls (any keys, any collision pattern, any `cmp_fn`) runs to
+    completion (no probe loop spins), ends in a chain satisfying the invariant `HtInv` (`used` =
+    occupied slots ≤ MAX_USED in every table; every stored pair reachable from its home slot
+    through occupied slots), and the multiset of stored pairs follows the multimap
+    specification `SpecRel` step by step -/
+theorem ht_refines_multimap (cmp : Nat → Nat → Bool) (k : Nat) (hk : 1 ≤ k) (ops : List HtOp)
+    (hv : ∀ op, op ∈ ops → op.valid) :
+    ∃ h' k', htRun cmp [create (2 ^ k)] ops = some h' ∧ HtInv k' h' ∧ SpecTrace cmp [] ops (contents h') := by
+  have := htRun_spec cmp ops k [create (2 ^ k)] (HtInv_create k hk) hv
+  rw [contents_cons, contents_nil, contents_create] at this
+  exact this
+
+/-- the comparison of the harness's exact mode, and a history on a size-4 table: four keys with
+    the same home slot (chain growth), a delete with compaction, a copy-resize, two more inserts -/
+def eqCmp (a b : Nat) : Bool := a == b
+def exHt : List HtOp :=
+  [.ins 0 1 none, .ins 4 2 none, .ins 8 3 none, .ins 12 4 none, .del 4 (some 2), .copy 3,
+   .ins 8 5 none, .ins 16 6 (some 6), .del 8 (some 3)]
+theorem exHt_valid : ∀ op, op ∈ exHt → op.valid := by
+  intro op h
+  simp only [exHt, List.mem_cons, List.not_mem_nil, or_false] at h
+  rcases h with rfl | rfl | rfl | rfl | rfl | rfl | rfl | rfl | rfl <;> simp [HtOp.valid]
+
+example : ∃ h' k', htRun eqCmp [create (2 ^ 2)] exHt = some h' ∧ HtInv k' h' ∧ SpecTrace eqCmp [] exHt (contents h') :=
+  ht_refines_multimap eqCmp 2 (by decide) exHt exHt_valid
+example : (htRun eqCmp [create (2 ^ 2)] exHt).map contents = some [(0, 1), (8, 5), (12, 4), (16, 6)] := by decide +kernel
+
+/-- one step from any chain satisfying the invariant: defined, invariant again, multimap step -/
+theorem ht_step_refines_multimap (cmp : Nat → Nat → Bool) (k : Nat) (h : List Table) (hi : HtInv k h)
+    (op : HtOp) (hv : op.valid) :
+    ∃ h' k', htStep cmp h op = some h' ∧ HtInv k' h' ∧ SpecRel cmp (contents h) op (contents h') :=
+  htStep_spec cmp k h hi op hv
+
+example : ∃ h' k', htStep eqCmp [create (2 ^ 3)] (.ins 7 9 none) = some h' ∧ HtInv k' h' ∧
+    SpecRel eqCmp (contents [create (2 ^ 3)]) (.ins 7 9 none) (contents h') :=
+  ht_step_refines_multimap eqCmp 3 _ (HtInv_create 3 (by decide)) _ (by simp [HtOp.valid])
+
+/-- EVERY STORED PAIR STAYS FINDABLE: in a chain satisfying the invariant, a lookup for the key
+    of a stored pair with an `arg` that matches its value returns a slot holding that key and a
+    matching value (never NULL, never a spin) -/
+theorem ht_stored_pair_findable (cmp : Nat → Nat → Bool) (k : Nat) (h : List Table) (hi : HtInv k h)
+    (key v : Nat) (arg : Option Nat) (hmem : (key, v) ∈ contents h) (hm : argMatch cmp v arg = true) :
+    ∃ ti p t, lookup cmp key arg h 0 = .found ti p ∧ h[ti]? = some t ∧ t.vals.get p ≠ 0 ∧
+      t.keys.get p = key ∧ argMatch cmp (t.vals.get p) arg = true ∧ (key, t.vals.get p) ∈ contents h := by
+  obtain ⟨l1, l2, l3⟩ := lookup_spec (cycPow k) cmp key arg h 0 hi.2.2
+  cases hl : lookup cmp key arg h 0 with
+  | found ti p =>
+    obtain ⟨t, _, a2, _, a4, a5, a6, a7⟩ := l2 ti p hl
+    exact ⟨ti, p, t, rfl, by simpa using a2, a4, a5, a6, a7⟩
+  | none => have := l3 hl v hmem; rw [hm] at this; cases this
+  | spin => exact absurd hl l1
+
+example : ∀ h', htRun eqCmp [create (2 ^ 2)] exHt = some h' →
+    ∃ ti p t, lookup eqCmp 12 (some 4) h' 0 = .found ti p ∧ h'[ti]? = some t ∧ t.vals.get p ≠ 0 ∧
+      t.keys.get p = 12 ∧ argMatch eqCmp (t.vals.get p) (some 4) = true ∧ (12, t.vals.get p) ∈ contents h' := by
+  intro h' e
+  obtain ⟨h2, k2, e2, i2, _⟩ := ht_refines_multimap eqCmp 2 (by decide) exHt exHt_valid
+  rw [e] at e2; cases e2
+  have hc : (htRun eqCmp [create (2 ^ 2)] exHt).map contents = some [(0, 1), (8, 5), (12, 4), (16, 6)] := by decide +kernel
+  rw [e] at hc
+  simp only [Option.map_some, Option.some.injEq] at hc
+  exact ht_stored_pair_findable eqCmp k2 h' i2 12 4 (some 4) (by rw [hc]; decide) (by decide)
+
+/-- LOOKUP IS SOUND: it never spins; a returned slot holds the key and a value matching `arg`
+    (a stored pair); NULL means that no stored pair with this key matches -/
+theorem ht_lookup_sound (cmp : Nat → Nat → Bool) (k : Nat) (h : List Table) (hi : HtInv k h)
+    (key : Nat) (arg : Option Nat) :
+    lookup cmp key arg h 0 ≠ .spin ∧
+    (∀ ti p, lookup cmp key arg h 0 = .found ti p → ∃ t, h[ti]? = some t ∧ t.keys.get p = key ∧
+      argMatch cmp (t.vals.get p) arg = true ∧ (key, t.vals.get p) ∈ contents h) ∧
+    (lookup cmp key arg h 0 = .none → ∀ v, (key, v) ∈ contents h → argMatch cmp v arg = false) := by
+  obtain ⟨l1, l2, l3⟩ := lookup_spec (cycPow k) cmp key arg h 0 hi.2.2
+  refine ⟨l1, ?_, l3⟩
+  intro ti p hl
+  obtain ⟨t, _, a2, _, _, a5, a6, a7⟩ := l2 ti p hl
+  exact ⟨t, by simpa using a2, a5, a6, a7⟩
+
+example : ∀ h', htRun eqCmp [create (2 ^ 2)] exHt = some h' → lookup eqCmp 4 (some 2) h' 0 = .none := by
+  intro h' e
+  have : (htRun eqCmp [create (2 ^ 2)] exHt).map (lookup eqCmp 4 (some 2) · 0) = some .none := by decide +kernel
+  rw [e] at this; simpa using this
+
+/-- DELETED PAIRS VANISH: deleting with an `arg` that identifies one stored pair (the comparison
+    is equality and the pair occurs once) leaves a chain in which that pair is no longer stored,
+    every other pair still is, and the invariant holds -/
+theorem ht_deleted_pair_vanishes (k : Nat) (h : List Table) (hi : HtInv k h) (key v : Nat)
+    (hmem : (key, v) ∈ contents h) (hone : (contents h).count (key, v) = 1) :
+    ∃ h', delete eqCmp key (some v) h = some h' ∧ HtInv k h' ∧ (key, v) ∉ contents h' ∧
+      (contents h).Perm ((key, v) :: contents h') := by
+  obtain ⟨hk, hne, hc⟩ := hi
+  obtain ⟨h', d1, d2, d3, d4⟩ := delete_spec (cycPow k) eqCmp key (some v) h hc
+  have hm : argMatch eqCmp v (some v) = true := by simp [argMatch, eqCmp]
+  refine ⟨h', d1, ⟨hk, fun e => by rw [e] at d3; exact hne (List.length_eq_zero_iff.mp d3.symm), d2⟩, ?_⟩
+  rcases d4 with ⟨nm, _⟩ | ⟨v', hm', hperm⟩
+  · have := nm v hmem; rw [hm] at this; cases this
+  · have : v' = v := by simpa [argMatch, eqCmp] using hm'
+    subst this
+    refine ⟨?_, hperm⟩
+    intro hin
+    have := hperm.count_eq (key, v')
+    rw [hone, List.count_cons_self] at this
+    have : (contents h').count (key, v') = 0 := by omega
+    exact (List.count_eq_zero.mp this) hin
+
+example : ∀ h', htRun eqCmp [create (2 ^ 2)] exHt = some h' →
+    ∃ h'', delete eqCmp 12 (some 4) h' = some h'' ∧ (12, 4) ∉ contents h'' := by
+  intro h' e
+  obtain ⟨h2, k2, e2, i2, _⟩ := ht_refines_multimap eqCmp 2 (by decide) exHt exHt_valid
+  rw [e] at e2; cases e2
+  have hc : (htRun eqCmp [create (2 ^ 2)] exHt).map contents = some [(0, 1), (8, 5), (12, 4), (16, 6)] := by decide +kernel
+  rw [e] at hc
+  simp only [Option.map_some, Option.some.injEq] at hc
+  obtain ⟨h'', a, _, c, _⟩ := ht_deleted_pair_vanishes k2 h' i2 12 4 (by rw [hc]; decide) (by rw [hc]; decide)
+  exact ⟨h'', a, c⟩
+
+/-- STATS: `hashtab_stats` reports exactly the number of stored pairs and the chain length -/
+theorem ht_stats_eq (k : Nat) (h : List Table) (hi : HtInv k h) :
+    (stats h).1 = (contents h).length ∧ (stats h).2 = h.length :=
+  stats_spec (cycPow k) h hi.2.2
+
+example : (htRun eqCmp [create (2 ^ 2)] exHt).map stats = some (4, 1) := by decide +kernel
+
+/-- COPY-RESIZE: `hashtab_copy(h, 2^k')` of ANY chain (it only reads the slot arrays) yields a
+    chain of tables of the new size satisfying the invariant and holding the same pairs -/
+theorem ht_copy_spec (k' : Nat) (hk : 1 ≤ k') (h : List Table) :
+    ∃ h', copy h (2 ^ k') = some h' ∧ HtInv k' h' ∧ (contents h').Perm (contents h) := by
+  obtain ⟨h', e1, e2, e3, e4⟩ := copy_spec (cycPow k') (two_le_pow k' hk) h
+  exact ⟨h', e1, ⟨hk, e2, e3⟩, e4⟩
+
+example : (htRun eqCmp [create (2 ^ 2)] (exHt ++ [.copy 1])).map (fun h => (stats h, contents h))
+    = some ((4, 4), [(0, 1), (8, 5), (12, 4), (16, 6)]) := by decide +kernel
+
+end HashTabSec
+
+/-! ## List / StatList (usual/list.h, usual/statlist.h) -/
+section ListSec
+open Usual.C15.DList UsualProofs.C15.DListP
+
+/-- DEQUE REFINEMENT with counts: every history of prepend / append / remove / pop / sort calls
+    on a StatList that respects the API contract leaves the ring of the list holding exactly the
+    sequence the deque specification `lspecRun` computes: forward traversal yields it, backward
+    traversal its reverse, and `cur_count` is its length -/
+theorem list_refines_deque (le : Nat → Nat → Bool) (fuel : Nat) (s : DL) (l : Nat) (hl : l ≠ 0)
+    (ops : List LOp) (hv : LValid le fuel l [] ops) (hf : (lspecRun le [] ops).length ≤ fuel) :
+    let st := lrun le fuel (statInit s l) ops
+    toList st.1 l fuel = lspecRun le [] ops ∧
+    toListRev st.1 l fuel = (lspecRun le [] ops).reverse ∧
+    st.2.count = (lspecRun le [] ops).length := by
+  intro st
+  have hr := lrun_rep le fuel ops (statInit s l) [] (statInit_rep s l hl) hv
+  have hh : st.2.head = l := by
+    have : ∀ (ops : List LOp) (st0 : DL × SL), (lrun le fuel st0 ops).2.head = st0.2.head := by
+      intro ops
+      induction ops with
+      | nil => intro _; rfl
+      | cons op rest ih => intro st0; show (lrun le fuel (lstep le fuel st0 op) rest).2.head = _; rw [ih, lstep_head]
+    exact this ops _
+  have ring := hr.ring
+  rw [hh] at ring
+  have := toList_eq ring fuel hf
+  exact ⟨this.1, this.2, hr.count⟩
+
+def exL : List LOp := [.app 5, .app 6, .pre 7, .app 8, .rem 6, .sort, .pop, .pre 9]
+
+theorem exL_valid : LValid (leKey exKey) 10 1 [] exL := by
+  simp only [exL, LValid, lspec, LOp.ok]
+  decide
+
+example : toList (lrun (leKey exKey) 10 (statInit DList.empty 1) exL).1 1 10 = [9, 7, 5] ∧
+    (lrun (leKey exKey) 10 (statInit DList.empty 1) exL).2.count = 3 := by
+  have := list_refines_deque (leKey exKey) 10 DList.empty 1 (by decide) exL exL_valid (by decide)
+  have e : lspecRun (leKey exKey) [] exL = [9, 7, 5] := by decide +kernel
+  rw [e] at this
+  exact ⟨this.1, this.2.2⟩
+
+/-- INTERIOR INSERTION (`statlist_put_after` = `list_prepend(pos, item)`, `statlist_put_before` =
+    `list_append(pos, item)`): the item lands right after / right before `pos` -/
+theorem list_put_after_before (s : DL) (l : Nat) (A B : List Nat) (pos x : Nat)
+    (hx : x ∉ l :: (A ++ pos :: B)) (h : IsL s l (A ++ pos :: B)) :
+    IsL (statPutAfter s { head := l, count := 0 } x pos).1 l (A ++ pos :: x :: B) ∧
+    IsL (statPutBefore s { head := l, count := 0 } x pos).1 l (A ++ x :: pos :: B) := by
+  constructor
+  · have h' : IsL s l ((A ++ [pos]) ++ B) := by simpa using h
+    have := prepend_at s l (A ++ [pos]) B pos x h' (by simpa using hx) (by simp)
+    show IsL (listPrepend s pos x) l (A ++ pos :: x :: B)
+    simpa using this
+  · show IsL (listAppend s pos x) l (A ++ x :: pos :: B)
+    exact append_at s l A (pos :: B) pos x h hx (by simp)
+
+example : toList (statPutAfter exDL { head := 1, count := 4 } 9 6).1 1 9 = [5, 6, 9, 7, 8] ∧
+    toList (statPutBefore exDL { head := 1, count := 4 } 9 6).1 1 9 = [5, 9, 6, 7, 8] := by decide +kernel
+
+/-- the reading operations see the abstract sequence: `list_empty`, `list_first`, `list_last` -/
+theorem list_reads (s : DL) (l : Nat) (xs : List Nat) (h : IsL s l xs) (hl : l ≠ 0) (h0 : 0 ∉ xs) :
+    (listEmpty s l = true ↔ xs = []) ∧ listFirst s l = xs.headD 0 ∧ listLast s l = xs.getLastD 0 :=
+  ⟨empty_iff h, first_eq h hl h0, last_eq h⟩
+
+example : listEmpty exDL 1 = false ∧ listFirst exDL 1 = 5 ∧ listLast exDL 1 = 8 := by decide +kernel
+
+/-- FRAME: prepend / append / del / pop write only to the item and its two new (old) neighbours,
+    so every other ring in the same store is untouched; stated for `list_del` (the general
+    frame lemma is `DListP.frame`) -/
+theorem list_del_frame (s : DL) (l : Nat) (A B : List Nat) (x : Nat) (h : IsL s l (A ++ x :: B))
+    (l2 : Nat) (ys : List Nat) (h2 : IsL s l2 ys) (hdisj : ∀ z, z ∈ l2 :: ys → z ∉ l :: (A ++ x :: B)) :
+    IsL (listDel s x) l2 ys ∧ IsL (listDel s x) l (A ++ B) ∧ IsL (listDel s x) x [] := by
+  refine ⟨?_, del_isL s l A B x h⟩
+  have hcl := UsualProofs.C15.SHListP.isList_closed h
+  have hxm : x ∈ l :: (A ++ x :: B) := by simp
+  obtain ⟨hn, hp⟩ := hcl x hxm
+  have hxp : x ≠ s.prev.get x := by
+    obtain ⟨P0, u, eA, _⟩ := list_split l A
+    obtain ⟨v, Q0, eB, _⟩ := list_split' l B
+    have := (UsualProofs.C15.Ring.isList_nbrs l A B P0 Q0 u v x h eA eB).2
+    rw [this]
+    intro e
+    have hu : u ∈ l :: A := by rw [eA]; simp
+    have hnd : ((l :: A) ++ x :: B).Nodup := by simpa using h.2
+    exact (List.nodup_append.mp hnd).2.2 u hu x (by simp) e.symm
+  apply frame s _ l2 ys h2
+  · intro z hz
+    rw [del_next]
+    have h1 : z ≠ x := fun e => hdisj z hz (e ▸ hxm)
+    have h2 : z ≠ s.prev.get x := fun e => hdisj z hz (e ▸ hp)
+    rw [if_neg h1, if_neg h2]
+  · intro z hz
+    rw [del_prev s x z hxp]
+    have h1 : z ≠ x := fun e => hdisj z hz (e ▸ hxm)
+    have h2 : z ≠ s.next.get x := fun e => hdisj z hz (e ▸ hn)
+    rw [if_neg h1, if_neg h2]
+
+/-- a second list (head 2: 10, 11) next to `exDL`'s list -/
+def exDL2 : DL := [10, 11].foldl (fun s x => listAppend s 2 x) (listInit exDL 2)
+example : toList (listDel exDL2 6) 2 9 = [10, 11] ∧ toList (listDel exDL2 6) 1 9 = [5, 7, 8] ∧
+    toList (listDel exDL2 6) 6 9 = [] := by decide +kernel
+
+end ListSec
+
+/-! ## SHList (usual/shlist.h) -/
+section SHListSec
+open Usual.C15.SHList UsualProofs.C15.SHListP
+
+/-- DEQUE REFINEMENT UNDER RELOCATION: every history of append / prepend / remove / pop calls
+    interleaved with `memmove`s of the whole region to arbitrary new addresses leaves a list
+    that — read at the region's current address — holds exactly the sequence of region offsets
+    the deque specification computes; the moves do not change it -/
+theorem shlist_refines_deque (len lo : Nat) (hlo : lo < len) (m : Mem) (base : Nat) (hb : 0 < base)
+    (ops : List SOp) (hv : SValid len lo [] ops) (fuel : Nat) (hf : (sspecRun [] ops).length ≤ fuel) :
+    let st := srun len lo { mem := init m (base + lo), base := base } ops
+    (toList st.mem (st.base + lo) fuel).map (· - st.base) = sspecRun [] ops ∧
+    (toListRev st.mem (st.base + lo) fuel).map (· - st.base) = (sspecRun [] ops).reverse := by
+  intro st
+  have hr := srun_rep len lo ops _ [] (sinit_rep len lo m base hb hlo) hv
+  have := toList_eq hr.ring fuel (by simpa using hf)
+  have cancel : ∀ os : List Nat, (os.map (st.base + ·)).map (· - st.base) = os := by
+    intro os
+    rw [List.map_map]
+    conv => rhs; rw [← List.map_id os]
+    apply List.map_congr_left
+    intro o _; simp
+  refine ⟨by rw [this.1]; exact cancel _, ?_⟩
+  rw [this.2, ← List.map_reverse]; exact cancel _
+
+def exS : List SOp := [.app 32, .app 48, .move 300, .pre 64, .rem 48, .move 8, .app 80, .pop, .move 700]
+
+theorem exS_valid : SValid 128 0 [] exS := by
+  simp only [exS, SValid, sspec, SOp.ok]
+  decide
+
+example : (toList (srun 128 0 { mem := init emptyMem 100, base := 100 } exS).mem 700 9).map (· - 700)
+    = [32, 80] := by
+  have := shlist_refines_deque 128 0 (by decide) emptyMem 100 (by decide) exS exS_valid 9 (by decide)
+  have e : sspecRun [] exS = [32, 80] := by decide +kernel
+  have eb : (srun 128 0 { mem := init emptyMem 100, base := 100 } exS).base = 700 := by decide +kernel
+  rw [e] at this
+  have h1 := this.1
+  rw [eb] at h1
+  exact h1
+
+/-- RELOCATION alone: `memmove` of the region that contains the head and all nodes of a list
+    moves the list with it — the abstraction (offsets relative to the region) is unchanged -/
+theorem shlist_relocate (m : Mem) (old len new l : Nat) (xs : List Nat) (h : IsSH m l xs)
+    (hold : 0 < old) (hreg : ∀ z, z ∈ l :: xs → old ≤ z ∧ z < old + len) (fuel : Nat) (hf : xs.length ≤ fuel) :
+    (toList (relocate m old len new) (l - old + new) fuel).map (· - new) = (toList m l fuel).map (· - old) ∧
+    (toListRev (relocate m old len new) (l - old + new) fuel).map (· - new) = (toListRev m l fuel).map (· - old) := by
+  have h' := relocate_isSH m old len new l xs h hold hreg
+  have t1 := toList_eq h fuel hf
+  have t2 := toList_eq h' fuel (by simpa using hf)
+  have cancel : ∀ os : List Nat, (∀ z, z ∈ os → old ≤ z) →
+      (os.map (fun z => z - old + new)).map (· - new) = os.map (· - old) := by
+    intro os _
+    rw [List.map_map]
+    apply List.map_congr_left
+    intro o _; simp
+  rw [t1.1, t1.2, t2.1, t2.2]
+  refine ⟨cancel xs (fun z hz => (hreg z (List.mem_cons_of_mem _ hz)).1), ?_⟩
+  rw [← List.map_reverse]
+  exact cancel xs.reverse (fun z hz => (hreg z (List.mem_cons_of_mem _ (List.mem_reverse.mp hz))).1)
+
+/-- head at 100, nodes at 116, 148 appended, then node 132 prepended -/
+def exM : Mem := prepend (append (append (init emptyMem 100) 100 116) 100 148) 100 132
+example : (toList (relocate exM 100 64 300) 300 9).map (· - 300) = [32, 16, 48] ∧
+    (toList exM 100 9).map (· - 100) = [32, 16, 48] := by decide +kernel
+
+/-- the reading operations see the abstract sequence: `shlist_empty`, `shlist_first`, `shlist_last` -/
+theorem shlist_reads (m : Mem) (l : Nat) (xs : List Nat) (h : IsSH m l xs) (hl : 0 < l) :
+    (isEmpty m l = true ↔ xs = []) ∧ first m l = xs.head? ∧ last m l = xs.getLast? :=
+  ⟨empty_iff h hl, first_eq h hl, last_eq h hl⟩
+
+example : isEmpty exM 100 = false ∧ first exM 100 = some 132 ∧ last exM 100 = some 148 := by decide +kernel
+
+end SHListSec
 
 end UsualProps.C15
